@@ -87,3 +87,8 @@ SPECS["C17"] = dict(level="exploration", assumptions=["SQLite stores durations a
     rule="(1) request-side model: subscriptions created with random accepted configurations (durations 1 ns .. 73 years incl. sub-microsecond values, label maps incl. empty/unicode, optional blocks present / absent / empty, defaults) are read back through the create response, Get and List and compared field by field; then sequences of 1-6 UpdateSubscription calls, each with a random 1-3 path mask and a body that carries NEW values for ALL fields: exactly the masked fields may change. (2) codec: Scan(Value(d)) == d for a grid plus seeded random durations, and ParsePostgreSQLInterval(reference PostgreSQL text for (days, microseconds)) == days*24h + microseconds for a grid plus seeded random pairs. Non-trivial: every case; distinct = distinct history / value.",
     parts=[dict(name="config", binary="rigv", pkg="rigv", test="TestC17", shards={"quick": 8, "thorough": 16}),
            dict(name="codec", binary="rigu", pkg="rigu", test="TestC17codec", race=False, shards={"quick": 4, "thorough": 16})])
+
+SPECS["C18"] = dict(level="exploration", assumptions=["schedules are whatever the Go scheduler produces on 16 cores for spin-started goroutines (thousands of trials); the race detector watches every trial", "with several overlapping descriptions the exact total is only defined when every matching call matches all of them: such trials use calls whose parameters are a superset of every description"],
+    min_relevant={"quick": 500, "thorough": 10000},
+    rule="thousands of trials: a fresh fault Set, 1-3 descriptions for one operation (counts 0,1,2,7,64,MaxInt64; parameter subsets incl. empty/nil), 1/2/10/64 callers released together, a mix of matching and non-matching calls; after all returned: #failed calls == min(sum of counts, #matching calls), each description fired <= its count, non-matching calls and other operations never fail, Current() (after the asynchronous prune settled) lists exactly the remaining counts. Plus the gRPC interceptor with real protobuf requests under both field-name forms. Non-trivial = more than one concurrent caller; relevant = trials with more matching callers than the total count (contended last decrement).",
+    parts=[dict(name="set", binary="rigu", pkg="rigu", test="TestC18", race=True, shards={"quick": 16, "thorough": 16})])
